@@ -516,8 +516,9 @@ def gen_writers(rng):
        {"kind": "default"}
        {"kind": "lib", "lib": [wdict...]}                      featureWriters=None, list in font.lib
        {"kind": "explicit", "list": ["..." | wdict(+"as")], "lib": [wdict...] | None}
-    Every built-in writer class occurs at most once in the effective list; the harness GSUB
-    writer, when present, is the LAST entry."""
+    Every built-in writer class occurs at most once in the effective list - except in the form
+    'ellipsis_default_dup' (one writer in front of the ellipsis and again among the defaults); the
+    harness GSUB writer, when present, is the LAST entry."""
     r = rng.random()
     if r < 0.25:
         return {"kind": "default"}
@@ -530,8 +531,28 @@ def gen_writers(rng):
             lst.append(dict(HARNESS))
         return {"kind": "lib", "lib": lst}
     # explicit
-    form = rng.choice(["ellipsis_default", "ellipsis_lib", "no_ellipsis"])
+    form = rng.choice(["ellipsis_default", "ellipsis_lib", "no_ellipsis", "ellipsis_default",
+                       "ellipsis_default_dup"])
     harness = dict(HARNESS, **{"as": rng.choice(["class", "instance"])})
+    if form == "ellipsis_default_dup":
+        # a positioning writer named explicitly in front of the ellipsis AND again among the
+        # defaults the ellipsis stands for: the first one generates (or fills the marker), the
+        # second finds the feature present and must leave it alone
+        first = dict(_wdict(rng, rng.choice(["KernFeatureWriter", "MarkFeatureWriter",
+                                             "CursFeatureWriter"]), append_p=0.0),
+                     **{"as": rng.choice(["class", "instance"])})
+        # (both in skip mode: an APPEND-mode writer followed by a second writer that honours
+        # the user's marker adds the rules twice by configuration)
+        if (first.get("options") or {}).get("mode"):
+            del first["options"]["mode"]
+        if "options" in first and not first["options"]:
+            del first["options"]
+        if "options" in first:
+            first["as"] = "instance"
+        lst = [first, "..."]
+        if rng.random() < 0.5:
+            lst.append(harness)
+        return {"kind": "explicit", "list": lst, "lib": None}
     if form == "ellipsis_default":
         lst = ["..."]
         if rng.random() < 0.85:
